@@ -147,6 +147,26 @@ func genC20(t *rapid.T) any {
 		if rapid.IntRange(0, 3).Draw(t, ql+".nested") == 0 {
 			q.Form = rapid.SampledFrom([]string{"derived", "cte"}).Draw(t, ql+".form")
 			q.Items = append(q.Items, C20Item{Kind: "col", Val: sq.Col("a"), Alias: "ca"})
+		} else if !c.Big && rapid.IntRange(0, 5).Draw(t, ql+".grouped") == 0 {
+			// a grouped query: one output row per group, in the order the groups first appear, its select list
+			// evaluated once; a HAVING that keeps every group does not change that
+			q.Form = rapid.SampledFrom([]string{"grouped", "grouped-nohaving"}).Draw(t, ql+".gform")
+			var items []C20Item
+			for _, it := range q.Items {
+				usesRow := false
+				if it.Val != nil {
+					it.Val.Walk(func(e *sq.E) {
+						if e.K == "col" && e.S != "s" {
+							usesRow = true
+						}
+					})
+				}
+				if it.Kind == "getsub" || usesRow {
+					continue
+				}
+				items = append(items, it)
+			}
+			q.Items = append(items, C20Item{Kind: "col", Val: sq.Col("s"), Alias: "gs"})
 		}
 		if !c.Big && q.Form != "cte" && rapid.IntRange(0, 5).Draw(t, ql+".union") == 0 {
 			// a second arm over the same table: its own WHERE, items and form (flat or derived table)
@@ -229,6 +249,10 @@ func (q *C20Query) sql() string {
 		s += " WHERE " + sq.Render(q.Where, nil)
 	}
 	switch q.Form {
+	case "grouped":
+		s += " GROUP BY s HAVING COUNT(*) > 0"
+	case "grouped-nohaving":
+		s += " GROUP BY s"
 	case "derived":
 		s = "SELECT * FROM (" + s + ") x"
 	case "cte":
@@ -318,7 +342,27 @@ func checkC20(c *C20Case) Result {
 			res.Labels = append(res.Labels, "union-of-two-arms")
 		}
 		for ai, arm := range arms {
-			for ri0, r := range q.Rows {
+			modelRows := q.Rows
+			if strings.HasPrefix(arm.Form, "grouped") {
+				// one model row per group of s among the rows passing WHERE, in first-appearance order
+				res.Labels = append(res.Labels, "grouped-query")
+				seen := map[string]bool{}
+				modelRows = nil
+				for _, r := range q.Rows {
+					row := r.(map[string]any)
+					if arm.Where != nil {
+						if keep, err := sq.EvalBool(arm.Where, row, env); err != nil || !keep {
+							continue
+						}
+					}
+					k, _ := row["s"].(string)
+					if !seen[k] {
+						seen[k] = true
+						modelRows = append(modelRows, r)
+					}
+				}
+			}
+			for ri0, r := range modelRows {
 				ri := ri0 + ai*1000 // rows of the second arm are later evaluations
 				row := r.(map[string]any)
 				q := arm
@@ -478,7 +522,7 @@ func init() {
 			"starts from that state. Non-trivial: >=2 queries, >=1 SETVAR and GETVAR, and a GETVAR that reads a value written by an earlier row or query.",
 		Assumptions: []string{
 			"variables are enabled through WithVars with a non-nil map (statement: 'with variables enabled')",
-			"no ORDER BY / GROUP BY / LIMIT / joins in these queries (evaluation order there is unspecified); WHERE does not call GETVAR",
+			"no ORDER BY / LIMIT / joins in these queries (evaluation order there is unspecified); GROUP BY only in the grouped form (one key, variable calls over the key and constants, a HAVING that keeps every group); WHERE does not call GETVAR",
 			"arithmetic with an unset (NULL) register yields NULL (C02); CONCAT with a NULL register is discarded (open finding concat-null)",
 		},
 		Gen:      genC20,
